@@ -56,6 +56,7 @@ type c04Cfg struct {
 	depth      int
 	bigLen     int  // sendbig: size of a blocking Write
 	wide       bool // thorough tier: larger argument domains
+	over       bool // tune: the initial receive windows exceed the auto-tuning ceilings (rcv > max); Read(3 cells) in the alphabet
 	rsa        bool // the peer negotiated RESET_STREAM_AT: SetReliableBoundary is in the alphabet
 }
 
